@@ -100,6 +100,13 @@ class BoolFn(Node):
             flat.append(a)
         self.args = tuple(flat)
 
+    # like sympy: two expressions built from equal operands are equal (and hash alike)
+    def __eq__(self, o):
+        return isinstance(o, BoolFn) and o.func is self.func and frozenset(o.args) == frozenset(self.args)
+
+    def __hash__(self):
+        return hash((self.func.__name__, frozenset(self.args)))
+
     def truth(self, ko: Set[str]) -> bool:
         vals = [a.truth(ko) for a in self.args]
         return any(vals) if self.func is OrClass else all(vals)
@@ -371,6 +378,40 @@ def check_interpreters(ctx, rule: str) -> None:
         if r._genes != tree_genes(t):
             bad = f"from_symbolic leaves the gene set {sorted(r._genes)} for the rule {show(r.body)}"
             break
+    # a rule that came through the symbolic form is a rule like any other: removing a gene from it (the in-place
+    # rewriting of _GeneRemover, evaluated) leaves the old rule with that gene absent - also when the same group occurs
+    # under two parents (a complex shared by two isozymes)
+    if bad is None:
+        x_, y_, p_, q_ = (NameN(k) for k in "xypq")
+        for t in (OR(AND(x_, OR(AND(a, b), p_)), AND(y_, OR(AND(a, b), q_))), AND(OR(a, b), OR(AND(a, b), c))):
+            genes_t = sorted(tree_genes(t))
+            for gone in genes_t:
+                interp()
+                s = evaluate(f"as_symbolic of {show(t)}", lambda: GPRN(t).as_symbolic())
+                if s[0] != "value":
+                    break
+                back = evaluate(f"from_symbolic(as_symbolic({show(t)}))", lambda: holder["it"].call(fns["from_symbolic"], [s[1]], {}, selfobj=GPRN))
+                if back[0] != "value" or not isinstance(back[1], GPRN) or back[1].body is None:
+                    break
+                start = back[1].body
+                before = show(start)
+                truth0 = {frozenset(k): tree_truth(start, set(k) | {gone}) for r_ in range(len(genes_t)) for k in itertools.combinations([g for g in genes_t if g != gone], r_)}
+                apply, _, _ = remover_factory(prog)
+                try:
+                    res = apply(start, [gone])
+                except EvalRaise as exc:
+                    bad = f"removing {gone} from the rule {before} that from_symbolic built raises {exc.exc_type}"
+                    break
+                except Unknown as exc:
+                    raise AnalysisError(f"{rule}: _GeneRemover cannot be evaluated on the rule from_symbolic built: {exc}")
+                n += 1
+                wrong = [k for k, v in truth0.items() if (tree_truth(res, set(k)) if res is not None else False) != v]
+                if wrong:
+                    bad = (f"removing {gone} from the rule {before} that from_symbolic(as_symbolic(..)) built gives {show(res) if res is not None else 'no rule'}: with {sorted(wrong[0])} knocked out in addition it is "
+                           f"{tree_truth(res, set(wrong[0])) if res is not None else False}, the old rule without {gone} is {truth0[wrong[0]]} (a group object that hangs under two parents is rewritten twice by the in-place remover)")
+                    break
+            if bad:
+                break
     if bad is None:
         interp()
         got = evaluate("as_symbolic of an empty rule", lambda: GPRN(None).as_symbolic())
@@ -653,13 +694,9 @@ def check_remove_genes(ctx, rule: str) -> None:
 
 
 # ------------------------------------------------------------------------------------ _GeneRemover
-def check_gene_remover(ctx, rule: str) -> None:
-    """_GeneRemover (visit_Name / visit_BoolOp) evaluated on stand-in rule trees with a stand-in NodeTransformer
-    (visit dispatches by node kind to the evaluated methods, generic_visit replaces the operands of an operator by the
-    results of their visits and drops those that came back as None): for every tree of the scope and every set of
-    removed genes, the result is the rule with those genes absent (false) - no result means the rule cannot be
-    satisfied any more -, it mentions no removed gene, and an operator is never left with fewer than two operands."""
-    prog = ctx.prog
+def remover_factory(prog):
+    """(apply(tree, removed genes) -> rewritten tree or None, visit_Name, visit_BoolOp): the real visit methods of
+    _GeneRemover evaluated on a stand-in NodeTransformer that edits the operand lists in place, like ast's."""
     M = "cobra.manipulation.delete"
     vn, vb = prog.func(M, "_GeneRemover.visit_Name"), prog.func(M, "_GeneRemover.visit_BoolOp")
     holder: Dict[str, Any] = {}
@@ -702,6 +739,24 @@ def check_gene_remover(ctx, rule: str) -> None:
         builtin = {"str": str, "int": int, "list": list, "set": set, "tuple": tuple, "dict": dict}
         return isinstance(v, tuple(builtin[n] for n in names if n in builtin)) if any(n in builtin for n in names) else False
 
+    def apply(tree, gone):
+        it = Interp(prog, (Node,), [], {"isinstance": _isinstance}, globals_={})
+        it.missing_attr_raises = True
+        holder["it"] = it
+        return Remover(gone).visit(tree)
+
+    return apply, vn, vb
+
+
+def check_gene_remover(ctx, rule: str) -> None:
+    """_GeneRemover (visit_Name / visit_BoolOp) evaluated on stand-in rule trees with a stand-in NodeTransformer
+    (visit dispatches by node kind to the evaluated methods, generic_visit replaces the operands of an operator by the
+    results of their visits and drops those that came back as None): for every tree of the scope and every set of
+    removed genes, the result is the rule with those genes absent (false) - no result means the rule cannot be
+    satisfied any more -, it mentions no removed gene, and an operator is never left with fewer than two operands."""
+    prog = ctx.prog
+    apply, vn, vb = remover_factory(prog)
+
     def clone(t):
         if t is None:
             return None
@@ -728,13 +783,9 @@ def check_gene_remover(ctx, rule: str) -> None:
         for r in range(0, len(genes) + 1):
             for gone in itertools.combinations(genes + ["zz"], r):
                 t = clone(t0)
-                it = Interp(prog, (Node,), [], {"isinstance": _isinstance, "len": None} if False else {"isinstance": _isinstance}, globals_={})
-                it.missing_attr_raises = True
-                holder["it"] = it
-                rm = Remover(gone)
                 n += 1
                 try:
-                    res = rm.visit(t)
+                    res = apply(t, gone)
                 except EvalRaise as exc:
                     problems.append(f"removing {sorted(gone)} from {show(t0)} raises {exc.exc_type}")
                     continue
